@@ -787,6 +787,9 @@ type c10E2E struct {
 }
 
 var c10E2ESources = []c10E2E{
+	{"whole expression (root)", "M"},
+	{"whole expression (root)", "MS"},
+	{"whole expression (root, parenthesised)", "(M)"},
 	{"sliced operand", "[M, M + 1, M + 2][0:2]"},
 	{"sliced operand", "(M..M + 4)[1:3]"},
 	{"sliced operand", "[[M, 5], [6, M]][0:1]"},
